@@ -47,6 +47,14 @@ def _tiny(prof, ver, level, fields, body, width=4, eos_npo="zero"):
     return vb.assemble(units)[0]
 
 
+def _header_only(base, level, fields, prof="HQ", ver=2):
+    """sequence_header + end_of_sequence, every video parameter taken from base video format `base` (real level
+    tables: which base formats / coding modes a multi-column level such as 3 (HD) admits depends on the column)"""
+    units = [dict(code=vb.PC_SH, payload=vb.sequence_header_base_defaults(base, version=ver, profile=prof, clean=None, fields=fields, level=level), first_in_sequence=True)]
+    units.append(dict(code=vb.PC_EOS, payload=b"", npo="zero"))
+    return vb.assemble(units)[0]
+
+
 def _first_ppo(data, v):
     return data[:9] + vb.u32(v) + data[13:]
 
@@ -113,6 +121,11 @@ def archetypes():
     real = dict(corpus.base_streams())
     for n in ("hq_minimal", "ld_fragments", "hq_420_fields", "hq_lossless"):
         A.append(("encoder_" + n, real[n]))
+    # level 3 (HD) has several columns: 720p formats only as frames, 1080i formats as frames or fields, ...
+    A.append(("lvl3_hd720p60_frames_header_only", _header_only(9, 3, False)))
+    A.append(("lvl3_hd1080i60_fields_header_only", _header_only(11, 3, True)))
+    A.append(("lvl2_sd480i_fields_header_only", _header_only(7, 2, True)))
+    A.append(("lvl2_sd576i_fields_header_only", _header_only(8, 2, True)))
     A.append(("default_then_custom_quant_matrix", _default_then_custom_qm()))
     A.append(("encoder_hq_minimal_noisy", _noisy_minimal()))
     B = [
@@ -128,6 +141,7 @@ def archetypes():
         ("BAD_eos_next_offset_13", _tiny("LD", 1, 0, False, P(0), eos_npo=13)),
         ("BAD_level66_ends_after_header", _tiny("HQ", 2, 66, False, [("PIC", 0), ("SH",)])),
         ("BAD_fragment_without_initial_fragment", _tiny("HQ", 3, 0, False, [("FN", 0, 1, 0)])),
+        ("BAD_lvl3_hd720p60_fields_header_only", _header_only(9, 3, True)),
         ("BAD_wrong_prev_offset", _tiny("HQ", 2, 0, False, P(0, 1))[:-4] + b"\x00\x00\x00\x01"),
     ]
     _ARCH = A + B
@@ -155,7 +169,12 @@ def exec_list(arg):
 def run(ctx):
     vc.install_permissive_levels()
     arch = archetypes()
-    alone = [measure(i) for i in range(len(arch))]
+    # each archetype alone in a process of its own (forked from this one, which has not run the validator yet):
+    # "accepted alone" must not depend on what a process validated before
+    import multiprocessing
+
+    with multiprocessing.get_context("fork").Pool(processes=8, maxtasksperchild=1) as pool:
+        alone = pool.map(measure, range(len(arch)), chunksize=1)
     for m in alone:
         if m["outcome"] == "crash":
             ctx.violation("C10|crash-alone|%s" % m["sig"], "archetype %s crashes the validator alone" % m["name"], {"list": [alone.index(m) + 1]})
@@ -233,7 +252,10 @@ def run(ctx):
 def replay(case):
     vc.install_permissive_levels()
     arch = archetypes()
-    alone = [measure(a - 1) for a in case["list"]]
-    o = exec_list((case["list"], None))
+    import multiprocessing
+
+    with multiprocessing.get_context("fork").Pool(processes=4, maxtasksperchild=1) as pool:
+        alone = pool.map(measure, [a - 1 for a in case["list"]], chunksize=1)
+        o = pool.map(exec_list, [(case["list"], None)], chunksize=1)[0]
     want = "accept" if all(m["outcome"] == "accept" for m in alone) else "reject"
     return {"alone": [(m["name"], m["outcome"], m["exc"], len(m["pics"])) for m in alone], "concatenated": (o["outcome"], o["exc"], len(o["pics"])), "violations": [] if o["outcome"] == want else ["verdict differs"]}
